@@ -1,0 +1,8 @@
+//go:build verif
+
+package diff
+
+// FindOverlappingBlocks exposes findOverlappingBlocks to the verification harness.
+func FindOverlappingBlocks(tblIdx1 [][]string, tblIdx2 [][]string, off1, prevEnd int) (start, end int) {
+	return findOverlappingBlocks(tblIdx1, tblIdx2, off1, prevEnd)
+}
